@@ -609,6 +609,12 @@ def _sign_window(f, mn, mx):
     and are narrowed to 0 under hours > 0 / hours < 0 respectively."""
     from ..flow import alternatives, zero_relations
     hours = f.call_params[0] if f.call_params else "hours"
+    # the hours have been through the integer caster: `hours >= 1` says
+    # `hours > 0`
+    ints = {hours} if any(
+        isinstance(n, ast.Assign) and U(n.targets[0]) == hours and
+        isinstance(n.value, ast.Call) and U(n.value.func) in (
+            "_int_caster", "int") for n in walk_no_nested(f.node)) else ()
 
     from ..linear import lin
 
@@ -626,10 +632,11 @@ def _sign_window(f, mn, mx):
             return False
         # 0 exactly under `hours <narrowing> 0`; the wide bound otherwise
         # (either as the initial value or under the complementary test)
-        if not all((hours, narrowing) in zero_relations(c) for c in zero):
+        if not all((hours, narrowing) in zero_relations(c, ints)
+                   for c in zero):
             return False
         for c in wide:
-            rel = {r for s_, r in zero_relations(c) if s_ == hours}
+            rel = {r for s_, r in zero_relations(c, ints) if s_ == hours}
             if narrowing in rel:
                 return False
         return True
